@@ -26,6 +26,8 @@ _LINE = re.compile(r"^(\d+)\s+(\w+)\((.*)$")
 
 def _points(trace, d):
     """[(syscall name, per-name index on the main thread)] of the calls that touch files under d."""
+    import durability
+    trace = durability.join_lines(trace)
     main = None
     counts = {}
     fds = set()
